@@ -119,3 +119,26 @@ func init() {
 		return nil
 	})
 }
+
+func init() {
+	reg("incremental-identity-dict-stale", "C18: an identity that only an older, superseded submodule revision defines is not resolvable after the newer one is loaded", func() error {
+		sm := "module sm { namespace \"urn:sm\"; prefix sm; include ss; leaf l { type identityref { base OLD; } } }"
+		ss20 := "submodule ss { belongs-to sm { prefix sm; } revision 2020-01-01; identity OLD; }"
+		ss21 := "submodule ss { belongs-to sm { prefix sm; } revision 2021-01-01; identity NEW; }"
+		batch := yang.NewModules()
+		batch.Parse(sm, "sm.yang")
+		batch.Parse(ss20, "ss@2020-01-01.yang")
+		batch.Parse(ss21, "ss@2021-01-01.yang")
+		berrs := batch.Process()
+		inc := yang.NewModules()
+		inc.Parse(sm, "sm.yang")
+		inc.Parse(ss20, "ss@2020-01-01.yang")
+		inc.Process()
+		inc.Parse(ss21, "ss@2021-01-01.yang")
+		ierrs := inc.Process()
+		if len(berrs) != len(ierrs) {
+			return fmt.Errorf("batch: %d errors %v; incremental: %d errors %v", len(berrs), berrs, len(ierrs), ierrs)
+		}
+		return nil
+	})
+}
